@@ -124,3 +124,9 @@ Example c10_lowercase_beyond_ascii :
   lowercase "ÖsterReich" = "österreich"%string /\ lowercase "ÉtatsUnis" = "étatsunis"%string
   /\ lowercase "Ελλάδα" = "ελλάδα"%string /\ lowercase "Россия" = "россия"%string /\ lowercase "×Þ_Ab" = "×þ_ab"%string.
 Proof. vm_compute. repeat split. Qed.
+
+(** on ASCII identifiers that lowercasing is the byte-wise ASCII one *)
+Theorem c10_lowercase_ascii : forall s, ascii_only s = true -> lowercase s = str_map to_lower s.
+Proof. exact lowercase_ascii. Qed.
+Check c10_lowercase_ascii : forall s, ascii_only s = true -> lowercase s = str_map to_lower s.
+Print Assumptions c10_lowercase_ascii.
